@@ -17,8 +17,9 @@ A. Vectorised numpy primitives of `grid_2d_util.relocated_grid_via_jit_from` / `
                                           result m, ghost index w:  0 <= w < n,  m == a[w],
                                           forall j in [0, n):  m <= a[j]      (np.max:  m >= a[j]).
 (5) np.argmin(a), a 1-D array             obligation  n > 0
-                                          result i:  0 <= i < n,  forall j in [0, n): a[i] <= a[j].
-    (numpy additionally returns the FIRST minimal index; that tie rule is not assumed.)
+                                          result i:  0 <= i < n,  forall j in [0, n): a[i] <= a[j],
+                                          forall j in [0, i): a[i] < a[j]     (numpy: "in case of multiple occurrences of
+                                          the minimum values, the indices corresponding to the first occurrence are returned").
 (6) full-array copy store  `a[:, :] = b`  (every index a bare `:`; a, b heap arrays / snapshots of equal rank >= 2 and
     element type): obligations `shape-eq` per dimension; afterwards a[i, j] == b[i, j] for all i, j -- read, as numpy
     does, as an element-wise copy of every element (b is snapshot at the time of the store).
@@ -33,16 +34,20 @@ B. Opaque real arithmetic, ONLY inside the contracts listed in OPAQUE_ARITH (per
         D1  sq18(x) == x * x        D2  pmul18(x, y) == x * y        D3  mfac18(a, b) == a / b
         D4  mv18(c, m, p) == c + pmul18(m, p - c)
         D5  sqrt(a) >= 0            D6  a >= 0  ->  sqrt(a) * sqrt(a) == a          (D5, D6: the engine's own sqrt axiom)
-    of which only D4 and D5 are handed to the solver as quantified axioms (uses_math "mv18", "sqrt_nonneg"; both are
-    linear over the symbols).  D1, D2, D3, D6 are used only inside the proofs of two LEMMAS, which are PROVED on every run
+        D7  sqd18(a, b) == sq18(a - b)            D8  radp18(y, x, c0, c1) == sqrt(sq18(y - c0) + sq18(x - c1))
+    (sqd18 / radp18: squared coordinate difference and distance of the point (y, x) from (c0, c1) as symbols of their own, so
+    that every trigger of the contract is a plain function application -- z3 matches triggers that contain + or -
+    unreliably) of which only D4, D5, D7, D8 are handed to the solver as quantified axioms (uses_math "mv18", "sqrt_nonneg",
+    "sqd18", "radp18"; all are linear over the symbols, each fires on its own left-hand side).  D1, D2, D3, D6 are used only inside the proofs of two LEMMAS, which are PROVED on every run
     (obligations `lemma:c18.scale/direct`, `lemma:c18.mfac/direct`; hypotheses = instances of D1..D6 at the lemma's own
     terms, every application of an uninterpreted symbol then replaced by a fresh constant -- a more general, purely
     real-arithmetic statement that z3 decides by nlsat in milliseconds):
         "scale"  forall c0, c1, p0, p1, rb {scale18(c0, c1, p0, p1, rb)}:
-                     with r = sqrt(sq18(p0 - c0) + sq18(p1 - c1)),  m = mfac18(rb, r):
-                     r > 0 and rb >= 0  ->  sqrt(sq18(mv18(c0, m, p0) - c0) + sq18(mv18(c1, m, p1) - c1)) == rb
+                     with r = radp18(p0, p1, c0, c1),  m = mfac18(rb, r):
+                     r > 0 and rb >= 0  ->  radp18(mv18(c0, m, p0), mv18(c1, m, p1), c0, c1) == rb
                  (scaling a vector by rb / r scales its length to rb)
         "mfac"   forall a, b {mfac18(a, b)}:  b > 0  ->  (mfac18(a, b) < 1  <=>  a < b)  and  (a >= 0 -> mfac18(a, b) >= 0)
+        "radp"   forall y, x, c0, c1 {radp18(y, x, c0, c1)}:  radp18(y, x, c0, c1) >= 0
     Marker predicates (`True` at run time; axioms "scale18", "rowmark18": forall x {mark(x)}: mark(x)) serve as triggers:
     scale18(..) asks for the lemma "scale" at one tuple of terms; ins18(i) / out18(i) / bnd18(i) are the ONLY triggers of the
     three per-coordinate clauses of the relocation rule, so that proving one clause for row i never instantiates the others;
@@ -133,6 +138,8 @@ F_SQ = z3.Function("macro.sq18", R, R)
 F_PMUL = z3.Function("macro.pmul18", R, R, R)
 F_MFAC = z3.Function("macro.mfac18", R, R, R)
 F_MV = z3.Function("macro.mv18", R, R, R, R)
+F_SQD = z3.Function("macro.sqd18", R, R, R)
+F_RADP = z3.Function("macro.radp18", R, R, R, R, R)
 F_SCALE = z3.Function("macro.scale18", R, R, R, R, R, B)
 F_ROWMARK = [z3.Function("macro.%s18" % n, I, B) for n in ("ins", "out", "bnd", "wit")]
 
@@ -146,6 +153,8 @@ def _definitions():
         "D3": z3.ForAll([a, b], F_MFAC(a, b) == a / b),
         "D4": z3.ForAll([c, m, p], F_MV(c, m, p) == c + F_PMUL(m, p - c), patterns=[F_MV(c, m, p)]),
         "D5": z3.ForAll([a], F_SQRT(a) >= 0, patterns=[F_SQRT(a)]),
+        "D7": z3.ForAll([a, b], F_SQD(a, b) == F_SQ(a - b), patterns=[F_SQD(a, b)]),
+        "D8": z3.ForAll([y, x, a, b], F_RADP(y, x, a, b) == F_SQRT(F_SQ(y - a) + F_SQ(x - b)), patterns=[F_RADP(y, x, a, b)]),
         "D6": z3.ForAll([a], z3.Implies(a >= 0, F_SQRT(a) * F_SQRT(a) == a)),
     }
 
@@ -182,11 +191,11 @@ def _abstract(formulas):
 
 def _scale_terms(c0, c1, p0, p1, rb):
     a_in = F_SQ(p0 - c0) + F_SQ(p1 - c1)
-    r = F_SQRT(a_in)
+    r = F_RADP(p0, p1, c0, c1)
     m = F_MFAC(rb, r)
     o0, o1 = F_MV(c0, m, p0), F_MV(c1, m, p1)
     a_out = F_SQ(o0 - c0) + F_SQ(o1 - c1)
-    return a_in, r, m, o0, o1, a_out, z3.Implies(z3.And(r > 0, rb >= 0), F_SQRT(a_out) == rb)
+    return a_in, r, m, o0, o1, a_out, z3.Implies(z3.And(r > 0, rb >= 0), F_RADP(o0, o1, c0, c1) == rb)
 
 
 def _mfac_body(a, b):
@@ -208,6 +217,7 @@ def _lemmas(E):
     insts += [_instance(D["D3"], rb, r), _instance(D["D4"], c0, m, p0), _instance(D["D4"], c1, m, p1),
               _instance(D["D2"], m, p0 - c0), _instance(D["D2"], m, p1 - c1)]
     insts += [_instance(D[n], t) for n in ("D5", "D6") for t in (a_in, a_out)]
+    insts += [_instance(D["D8"], p0, p1, c0, c1), _instance(D["D8"], o0, o1, c0, c1)]
     vs = [z3.Real(n + "!scale") for n in ("c0", "c1", "p0", "p1", "rb")]
     scale_stmt = z3.ForAll(vs, _scale_terms(*vs)[-1], patterns=[F_SCALE(*vs)])
     sp = _abstract(insts + [body])
@@ -216,9 +226,15 @@ def _lemmas(E):
     mp = _abstract([_instance(D["D3"], a, b), _mfac_body(a, b)])
     av, bv = z3.Real("a!mfac"), z3.Real("b!mfac")
     mfac_stmt = z3.ForAll([av, bv], _mfac_body(av, bv), patterns=[F_MFAC(av, bv)])
+    # ---- radp (distance is non-negative)
+    q = [E.fresh(n, R) for n in ("y", "x", "c0", "c1")]
+    rp = _abstract([_instance(D["D8"], *q), _instance(D["D5"], F_SQ(q[0] - q[2]) + F_SQ(q[1] - q[3])), F_RADP(*q) >= 0])
+    qv = [z3.Real(n + "!radp") for n in ("y", "x", "c0", "c1")]
+    radp_stmt = z3.ForAll(qv, F_RADP(*qv) >= 0, patterns=[F_RADP(*qv)])
     E.spec_inst[key] = {"f": None, "name": "c18", "axioms": [], "env": {}, "lemmas": [
         {"name": "c18.scale", "parts": [("direct", sp[:-1], sp[-1])], "stmt": scale_stmt, "hints": [], "export": True, "spec": "c18"},
-        {"name": "c18.mfac", "parts": [("direct", mp[:-1], mp[-1])], "stmt": mfac_stmt, "hints": [], "export": True, "spec": "c18"}]}
+        {"name": "c18.mfac", "parts": [("direct", mp[:-1], mp[-1])], "stmt": mfac_stmt, "hints": [], "export": True, "spec": "c18"},
+        {"name": "c18.radp", "parts": [("direct", rp[:-1], rp[-1])], "stmt": radp_stmt, "hints": [], "export": True, "spec": "c18"}]}
 
 
 if not getattr(verify, "_c18_math", False):
@@ -230,6 +246,8 @@ if not getattr(verify, "_c18_math", False):
         v5 = [z3.Real(n + "!m18") for n in "abcde"]
         iv = z3.Int("i!m18")
         d["mv18"] = [D["D4"]]
+        d["sqd18"] = [D["D7"]]
+        d["radp18"] = [D["D8"]]
         d["sqrt_nonneg"] = [D["D5"]]
         d["scale18"] = [z3.ForAll(v5, F_SCALE(*v5), patterns=[F_SCALE(*v5)])]
         d["rowmark18"] = [z3.ForAll([iv], F(iv), patterns=[F(iv)]) for F in F_ROWMARK]
@@ -317,17 +335,26 @@ def _is_full_slice(n):
     return isinstance(n, ast.Slice) and n.lower is None and n.upper is None and n.step is None
 
 
+F_UNROLL = z3.Function("unroll18", I, B)
+
+
 def _mean_facts(E, st, m, S, n, elem_of):
     k = E.fresh("k", I)
     nm = F_PMUL(z3.ToReal(n), m) if E.c.key in OPAQUE_ARITH else z3.ToReal(n) * m
     st.pc.append(z3.And(S(z3.IntVal(0)) == 0,
-                        z3.ForAll([k], z3.Implies(k >= 0, S(k + 1) == S(k) + elem_of(k)), patterns=[S(k + 1)]),
+                        # the recurrence only DEFINES the mean (no proof in contracts/c18_border.py uses it): its trigger is an
+                        # otherwise unused marker, so e-matching never unrolls it.  (z3 matches a trigger S(k + 1) against S(n)
+                        # by solving k = n - 1 and then unrolls S(n - 1), S(n - 2), ... on the symbolic length: matching loop.)
+                        z3.ForAll([k], z3.Implies(k >= 0, S(k + 1) == S(k) + elem_of(k)),
+                                  patterns=[z3.MultiPattern(S(k), F_UNROLL(k))]),
                         nm == S(n)))
 
 
 def _np_mean(E, node, st):
     if len(node.args) != 1 or node.keywords:
         raise OutsideSubset("np.mean with axis / keywords")
+    if E.c.key in OPAQUE_ARITH:
+        _lemmas(E)            # also in a corollary run, where no program text is executed
     a0 = node.args[0]
     if (isinstance(a0, ast.Subscript) and isinstance(a0.slice, ast.Tuple) and len(a0.slice.elts) == 2
             and _is_full_slice(a0.slice.elts[0]) and not isinstance(a0.slice.elts[1], ast.Slice)):
@@ -386,7 +413,8 @@ def _np_argmin(E, node, st):
     j = E.fresh("j", I)
     el = z3.Select(a.data, j)
     st.pc.append(z3.And(i >= 0, i < n,
-                        z3.ForAll([j], z3.Implies(z3.And(j >= 0, j < n), z3.Select(a.data, i) <= el), patterns=[el])))
+                        z3.ForAll([j], z3.Implies(z3.And(j >= 0, j < n), z3.Select(a.data, i) <= el), patterns=[el]),
+                        z3.ForAll([j], z3.Implies(z3.And(j >= 0, j < i), z3.Select(a.data, i) < el), patterns=[el])))
     return i
 
 
@@ -491,6 +519,7 @@ if not getattr(Engine, "_c18_slice_simplify", False):
 
 # ---- (10) array extensionality off for selected contracts
 NO_ARRAY_EXT = set()
+COROLLARY_MATH = {}        # contract key -> uses_math of the corollaries whose first call is that contract
 _current = {"key": None}
 
 if not getattr(verify, "_c18_noext", False):
@@ -499,6 +528,10 @@ if not getattr(verify, "_c18_noext", False):
 
     def _all_axioms(E, proven_lemmas, internal_for=None):
         _current["key"] = getattr(E.c, "key", None)
+        from pyvc.contract import CONTRACTS
+        real = CONTRACTS.get(_current["key"])
+        if real is not None and E.c is not real and _current["key"] in COROLLARY_MATH and not getattr(E.c, "uses_math", None):
+            E.c.uses_math = list(COROLLARY_MATH[_current["key"]])     # opt-in axioms of a corollary over that contract
         return _orig_all_axioms(E, proven_lemmas, internal_for=internal_for)
 
     def _solve(hyps, goal, *args, **kwargs):
@@ -522,6 +555,7 @@ if not getattr(verify, "_c18_noext", False):
 
     verify.all_axioms = _all_axioms
     verify._solve = _solve
+    verify._orig_solve = _orig_solve
     verify._c18_noext = True
 
 
